@@ -39,6 +39,15 @@ class P(Prop):
                 ar = {"mul": n + 1, "mul_assign": n + 1, "neg": n, "add": 2 * n, "sub": 2 * n, "translate": n + 1}[meth]
             for _ in range(per):
                 out.append(K.kernel_case(name, [K.rand_arg(rng) for _ in range(ar)], cls=name.split("::")[-1]))
+            if name.endswith("::translate"):
+                # shifts of the order of one unit in the last place of the constant (0.3 .. 3 ulps): the sum must still be the
+                # correctly rounded one
+                for _ in range(max(2, per)):
+                    args = [rng.choice([1.5, -3.0, 3.0 * 2.0 ** 100, rng.uniform(0.5, 4), 1e-20]) for _ in range(ar - 1)]
+                    k0 = args[0]
+                    ulp = abs(C.fl(C.next_up(C.bits(abs(k0)))) - abs(k0))
+                    args.append(ulp * rng.choice([0.3, 0.51, 0.75, 1.25, 1.5, 2.5, -0.75, -1.25]))
+                    out.append(K.kernel_case(name, args, cls="translate/ulp_band"))
         for _ in range(10 if tier == "quick" else 200):
             n = rng.randint(0, 8)
             out.append(dict(op="polyn_translate", cs=[C.bits(K.rand_arg(rng)) for _ in range(n)], s=C.bits(K.rand_arg(rng)),
